@@ -1207,7 +1207,15 @@ func (fc *FCtx) typeFromExpr(ex ast.Expr, pkg *packages.Package) types.Type {
 // one-step unfolding as a ground (or, under binders, universally quantified) fact. The quantified defining axiom can
 // then be left out of a solver query (the "lite" variant), which avoids e-matching loops through the recursion.
 func (fc *FCtx) unfoldOnce(sf *SpecFn, args []Val, env *Env) {
-	if sf.Body == nil || fc.unfolding || !specMentions(sf.Body, sf.Name) {
+	// (non-recursive spec functions too: a ground application that occurs only inside a quantified clause is not a
+	// term the solver matches on, so the trigger of its defining axiom would never fire)
+	if sf.Body == nil || fc.unfolding {
+		return
+	}
+	// ... but only quantifier-free accessor-style bodies: restating a quantified body as a second ground fact only
+	// gives the solver more to match on (it made one proved loop invariant of feeds Vote time out)
+	// - and only where the function's contract asks for it (`//@ unfold`), because the extra ground facts are not free
+	if !specMentions(sf.Body, sf.Name) && (specHasQuant(sf.Body) || fc.C == nil || fc.C.Flags["unfold"] == "") {
 		return
 	}
 	fc.unfolding = true
@@ -1251,6 +1259,21 @@ func specMentions(n *SNode, name string) bool {
 	}
 	for _, a := range n.Args {
 		if specMentions(a, name) {
+			return true
+		}
+	}
+	return false
+}
+
+func specHasQuant(n *SNode) bool {
+	if n == nil {
+		return false
+	}
+	if n.Op == "forall" || n.Op == "exists" {
+		return true
+	}
+	for _, a := range n.Args {
+		if specHasQuant(a) {
 			return true
 		}
 	}
